@@ -179,6 +179,13 @@ def execute(scn):
         elif shared:
             stats["reach.shared_leaf_bypasses_features"] = 1
 
+    for a, b in scn.get("tied_grads", []):
+        # one accumulator behind two names: both carry the sum of the two tolerances
+        ta, tb = tolmap.get(a), tolmap.get(b)
+        if ta is not None or tb is not None:
+            tsum = (ta if ta is not None else 0.0) + (tb if tb is not None else 0.0)
+            tolmap[a] = tsum
+            tolmap[b] = tsum
     for n in world.leaf_names:
         _cmp_leaf(world, twin, n, tolmap, n in requested, eps, viols, "grad_vs_autograd_twin")
     events.append(["grads", digest({n: (None if world.t[n].grad is None else world.t[n].grad.detach().numpy().tobytes()) for n in world.leaf_names})])
